@@ -3,4 +3,4 @@
 set -e
 ROOT="$(cd "$(dirname "${BASH_SOURCE[0]}")/.." && pwd)"
 mkdir -p "$ROOT/target/dict"
-python3 "$ROOT/ref/dict_extract.py" /repo "$ROOT/target/dict"
+python3 "$ROOT/ref/dict_extract.py" "${VERIF_REPO:-/repo}" "$ROOT/target/dict"
